@@ -21,15 +21,35 @@ def r1(ctx):
     for opt in ("gitignore", "hgignore", "dockerignore"):
         lets = [x for x in walk(hir) if x["k"] == "Let" and x["pat"].get("name") == "apply_" + opt]
         ok = len(lets) == 1
+        why = None
         if ok:
-            r = render(lets[0]["init"]).replace(" ", "")
-            ok = r == "root.options.%s.unwrap_or(self.config.%s.unwrap_or(false))" % (opt, opt)
-        n += 1
+            # evaluated (finite interpreter) on the 3 x 3 settings of (root option, configuration default), with every other
+            # option set to the opposite value so that a mixed-up name is seen
+            import interp
+            others = [o for o in ("gitignore", "hgignore", "dockerignore") if o != opt]
+            vals = {None: interp.NONE, True: interp.some(True), False: interp.some(False)}
+            for ro in (None, True, False):
+                for cf in (None, True, False):
+                    want = ro if ro is not None else (cf if cf is not None else False)
+                    other = interp.some(not want)
+                    root = {"options": dict({o: other for o in others}, **{opt: vals[ro]})}
+                    selfv = {"config": dict({o: other for o in others}, **{opt: vals[cf]}), "default_config": dict({o: other for o in others}, **{opt: other})}
+                    try:
+                        got = interp.eval_in(hir, lets[0]["init"], {"root": root, "self": selfv}, prog=ctx.prog)
+                    except interp.Undecided as e:
+                        ok, why = False, "cannot evaluate: %s" % e
+                        break
+                    n += 1
+                    if got != want:
+                        ok, why = False, "root option %s, configuration %s -> %s" % (ro, cf, got)
+                        break
+                if not ok:
+                    break
         ctx.obligation(ok)
         if not ok:
             ctx.violation("precedence/%s" % opt, ctx.where(LSR),
-                          "apply_%s must be the root's option, else the configuration default, else false; found `%s`" %
-                          (opt, render(lets[0]["init"]) if lets else None))
+                          "apply_%s must be the root's option, else the configuration default, else false; found `%s` (%s)" %
+                          (opt, render(lets[0]["init"])[:120] if lets else None, why))
     # the computed flags reach visit_dir in their own positions
     top = [c for c in walk_exprs(hir) if c["k"] == "MCall" and c["m"] == "visit_dir"]
     ps = [p.get("name") for p in ctx.prog.fn(VISIT_DIR)["params"]]
@@ -72,69 +92,38 @@ def r2(ctx):
                 ctx.violation("ignored/%s-outside-gate" % c["m"], ctx.where(VISIT_DIR, c), "`%s` of a directory entry is not inside `if pass_ignores`: ignored entries would be %s" %
                               (c["m"], "reported" if c["m"] == "check_file" else "entered"))
     ctx.floor(n, 4, "report/descent sites in the directory loop", VISIT_DIR)
-    locs = Locals(hir)
-    pi = [x for x in walk(hir) if x["k"] == "Let" and x["pat"].get("name") == "pass_ignores"]
-    if len(pi) != 1 or pi[0]["init"]["k"] != "If":
-        ctx.violation("anchor/pass_ignores", VISIT_DIR, "definition of pass_ignores not found")
+    import extra
+    res, has_git, err = extra.pass_ignores_table(ctx)
+    if res is None:
+        ctx.violation("ignored/formula-shape", ctx.where(VISIT_DIR), err)
         raise Abort()
-    then = pi[0]["init"]["t"]
-    tlocs = Locals(then)
-    has_git = any("is_path_ignored" in render(x) for x in walk_exprs(then))
-
-    def leaf(n_):
-        n_ = peel(n_, methods=False)
-        r = render(n_)
-        if n_["k"] == "Path" and n_.get("rk") == "Local" and n_["name"].startswith("apply_") and n_["res"] not in tlocs.defs:
-            return {"apply_gitignore": "ag", "apply_hgignore": "ah", "apply_dockerignore": "ad"}.get(n_["name"])
-        if n_["k"] == "Call" and str(n_.get("callee", "")).endswith("matches_hgignore_filter"):
-            return "mh"
-        if n_["k"] == "Call" and str(n_.get("callee", "")).endswith("matches_dockerignore_filter"):
-            return "md"
-        if n_["k"] == "Bin" and n_["op"] == "&&" and "is_path_ignored" in r and "apply_" not in r:
-            return "mg"
-        if n_["k"] == "MCall" and "is_path_ignored" in r and n_["m"] == "unwrap_or":
-            return "mg"
-        return None
-
-    ev = Evaluator(leaf, tlocs)
-    tail = then["expr"] if then["k"] == "Block" and "expr" in then else then
+    tbl, asked, _ = res
     m = 0
     bad = []
-    names = ["ag", "ah", "ad", "mg", "mh", "md"]
-    for vals in itertools.product([False, True], repeat=6):
-        env = dict(zip(names, vals))
-        if not has_git:
-            env["mg"] = False
-        try:
-            got = ev.boolean(tail, env)
-        except NotComparison as e:
-            ctx.violation("ignored/formula-shape", ctx.where(VISIT_DIR, tail), "cannot evaluate the ignore verdict: %s" % e)
-            bad = None
-            break
-        want = not ((env["ag"] and env["mg"]) or (env["ah"] and env["mh"]) or (env["ad"] and env["md"]))
+    for (ag, ah, ad, mg, mh, md, repo), got in tbl.items():
+        want = not ((ag and repo and mg) or (ah and mh) or (ad and md))
         m += 1
         ctx.obligation(got == want)
         if got != want:
-            bad.append({k: v for k, v in env.items() if v})
+            bad.append({k: v for k, v in (("gitignore", ag), ("hgignore", ah), ("dockerignore", ad), ("git ignores", mg), ("hg filter matches", mh),
+                                          ("docker filter matches", md), ("repository", repo)) if v})
     if bad:
-        ctx.violation("ignored/formula", ctx.where(VISIT_DIR, tail),
+        ctx.violation("ignored/formula", ctx.where(VISIT_DIR),
                       "an entry must pass exactly when no enabled tool ignores it; the verdict differs e.g. for %s" % bad[0])
     # git's verdict is asked for the canonical path as well (a walked path like ./x is reported as ignored by libgit2)
-    gi = [c for c in walk_exprs(then) if c["k"] == "MCall" and c["m"] == "is_path_ignored"]
     if has_git:
-        okg = len(gi) == 1 and "canonical_path" in render(gi[0]["args"][0])
+        okg = asked["git"] == {"<canonical>"}
         ctx.obligation(okg)
         if not okg:
-            ctx.violation("ignored/filter-args/is_path_ignored", ctx.where(VISIT_DIR), "git's ignore verdict must be asked for the entry's canonical path; it is asked for `%s`" % (render(gi[0]["args"][0]) if gi else None))
-    ctx.covered("ignore verdict formula on all assignments of (option on, tool matches) x 3 tools", m,
-                distinct_keys=["assignments:%d" % m], sample=render(tail), exhaustive=True)
-    # filters see the canonical path of the entry, with their own filter list
-    for fn, lst in (("matches_hgignore_filter", "hgignore_filters"), ("matches_dockerignore_filter", "dockerignore_filters")):
-        cs = [c for c in walk_exprs(then) if c["k"] == "Call" and str(c.get("callee", "")).endswith(fn)]
-        ok = len(cs) == 1 and lst in render(cs[0]["args"][0]) and "canonical_path" in render(cs[0]["args"][1])
+            ctx.violation("ignored/filter-args/is_path_ignored", ctx.where(VISIT_DIR), "git's ignore verdict must be asked for the entry's canonical path; it is asked for %s" % sorted(asked["git"]))
+    ctx.covered("ignore verdict of visit_dir evaluated on all settings of (option on, tool matches) x 3 tools x repository present", m,
+                distinct_keys=["assignments:%d" % m], exhaustive=True)
+    for tool, lst in (("hg", "<hg filters>"), ("docker", "<docker filters>")):
+        ok = asked[tool] == {(lst, "<canonical>")}
         ctx.obligation(ok)
         if not ok:
-            ctx.violation("ignored/filter-args/%s" % fn, ctx.where(VISIT_DIR), "%s must be applied to the entry's canonical path with self.%s" % (fn, lst))
+            ctx.violation("ignored/filter-args/matches_%signore_filter" % tool, ctx.where(VISIT_DIR),
+                          "the %s filter must be asked with its own filter list and the entry's canonical path; it is asked with %s" % (tool, sorted(asked[tool])))
 
 
 def r3(ctx):
@@ -207,18 +196,42 @@ def r3(ctx):
 
 def r4(ctx):
     """hg / docker filter verdicts: any match ignores; docker negation re-includes"""
-    h = ctx.anchor_hir("ignore::hg::matches_hgignore_filter")
-    asg = [x for x in walk_exprs(h) if x["k"] == "Assign" and render(x["l"]) == "matched"]
-    ok = len(asg) == 1 and render(asg[0]["r"]) == "true" and any(t[0] == "if" and t[2] and "is_match" in render(Locals(h).chase(t[1])) for t in guards_of(h, asg[0]))
-    ctx.obligation(ok)
-    if not ok:
-        ctx.violation("verdict/hg", ctx.where("ignore::hg::matches_hgignore_filter"), "an entry is hg-ignored exactly when some pattern matches it")
-    h = ctx.anchor_hir("ignore::docker::matches_dockerignore_filter")
-    rets = [x for x in walk_exprs(h) if x["k"] == "Ret" and "e" in x and render(x["e"]) == "false"]
-    ok = len(rets) == 1 and any(t[0] == "if" and t[2] and "negate" in render(t[1]) and "is_match" in render(t[1]) for t in guards_of(h, rets[0]))
-    ctx.obligation(ok)
-    if not ok:
-        ctx.violation("verdict/docker-negation", ctx.where("ignore::docker::matches_dockerignore_filter"), "a matching negated pattern must re-include the entry")
+    # both verdict functions are evaluated (finite interpreter) on every list of up to three filters, each described by
+    # (its regex matches the path, it is a negation): hg = some pattern matches; docker = some pattern matches and no
+    # matching pattern is a negation
+    import interp
+    import itertools
+
+    def call(node, recv, args, it, env):
+        if node.get("m") == "is_match" and isinstance(recv, dict) and "__m" in recv:
+            return (recv["__m"],)
+        if node.get("m") in ("to_string", "replace", "as_str", "to_owned") and isinstance(recv, str):
+            return (recv,)
+        return None
+    for fn, key, docker in (("ignore::hg::matches_hgignore_filter", "verdict/hg", False), ("ignore::docker::matches_dockerignore_filter", "verdict/docker-negation", True)):
+        h = ctx.anchor_hir(fn)
+        ps = ctx.prog.fns[fn]["params"]
+        bad = None
+        cnt = 0
+        kinds = [(m_, n_) for m_ in (False, True) for n_ in ((False, True) if docker else (False,))]
+        for k in range(4):
+            for combo in itertools.product(kinds, repeat=k):
+                filters = [{"regex": {"__m": m_}, "negate": n_} for m_, n_ in combo]
+                try:
+                    got = interp.Interp(call=call).run(h, {ps[0]["id"]: filters, ps[1]["id"]: "/dir/file"})
+                except interp.Undecided as e:
+                    bad = "cannot evaluate %s: %s" % (short(fn, 1), e)
+                    break
+                cnt += 1
+                want = any(m_ for m_, n_ in combo) and not any(m_ and n_ for m_, n_ in combo)
+                if got != want:
+                    bad = "for the filters %s (matches, negated) the verdict is %s" % (list(combo), got)
+                    break
+            if bad:
+                break
+        ctx.obligation(bad is None)
+        if bad:
+            ctx.violation(key, ctx.where(fn), ("a matching negated pattern must re-include the entry" if docker else "an entry is hg-ignored exactly when some pattern matches it") + " (%s)" % bad)
     # `!` prefix sets negate and is stripped
     ch = ctx.anchor_hir("ignore::docker::convert_dockerignore_pattern")
     ok = any(x["k"] == "If" and 'starts_with("!")' in render(x["c"]) and any(y["k"] == "Assign" and render(y["l"]) == "negate" and render(y["r"]) == "true" for y in walk_exprs(x["t"])) for x in walk_exprs(ch))
@@ -235,20 +248,20 @@ def r4(ctx):
         ctx.obligation(ok)
         if not ok:
             ctx.violation("verdict/comments/%s" % short(fn, 1), ctx.where(fn), "comment and blank lines of the ignore file must be skipped")
-    # hg syntax directive table
-    sh = ctx.anchor_hir("ignore::hg::Syntax::from")
-    r = render(sh)
-    ok = '"regexp"' in r and '"glob"' in r
+    # hg syntax directive: evaluated on the two documented words and on an unknown one
+    sfn = "ignore::hg::Syntax::from"
+    sh = ctx.anchor_hir(sfn)
+    pid = ctx.prog.fns[sfn]["params"][0]["id"]
     t = {}
-    for x in walk_exprs(sh):
-        if x["k"] == "If":
-            c = render(peel(x["c"], methods=False))
-            rr = [render(peel_result(y["e"])) for y in walk_exprs(x["t"]) if y["k"] == "Ret" and "e" in y]
-            t[c] = rr
-    ok = ok and any("regexp" in c and any("Syntax::Regexp" in v for v in vs) for c, vs in t.items()) and any("glob" in c and any("Syntax::Glob" in v for v in vs) for c, vs in t.items())
+    for w in ("regexp", "glob", "shell"):
+        try:
+            t[w] = repr(interp.Interp().run(sh, {pid: w}))
+        except interp.Undecided as e:
+            t[w] = "undecided: %s" % e
+    ok = t["regexp"] == "Result::Ok(Syntax::Regexp)" and t["glob"] == "Result::Ok(Syntax::Glob)" and t["shell"].startswith("Result::Err")
     ctx.obligation(ok)
     if not ok:
-        ctx.violation("verdict/hg-syntax", ctx.where("ignore::hg::Syntax::from"), "`syntax: regexp|glob` must select the matching translator: %s" % t)
+        ctx.violation("verdict/hg-syntax", ctx.where(sfn), "`syntax: regexp|glob` must select the matching translator: %s" % t)
     ctx.covered("filter verdict functions, negation, comment skipping, hg syntax directive", 6, distinct_keys=["hg", "docker-neg", "bang", "comments", "syntax"])
 
 
